@@ -456,6 +456,13 @@ void recipeRebuild(RunState& rs) {
     ctx.view = &w->view();
     w->makeAlgo();
     bool cellsZero = true;
+    uint64_t qseed = sc.schedSeed ^ 0x51;
+    auto doQuery = [&]() {
+        setStage("query");
+        const long wrong = w->query(qseed++);
+        if (wrong) { ctx.addViolation("query", "find", std::to_string(wrong) + " lookups through findGroupWithLeaf/findGroupWithCell gave a wrong answer"); rs.drain("run"); }
+    };
+    doQuery();
     for (const HistOp& op : sc.history) {
         if (op.op == "move") {
             applyMoves(ctx, w->view(), op);
@@ -467,6 +474,7 @@ void recipeRebuild(RunState& rs) {
             ctx.view = &w->view();
             setStage("rebuild-oracle");
             checkAfterRebuild(rs, *w, before);
+            doQuery();
             cellsZero = true;
         } else if (op.op == "execute") {
             // expected = preserved results + results of the same executor on a freshly built tree
@@ -520,8 +528,10 @@ Json runScenario(const Scenario& sc) {
     RunState rs(ctx, sc);
     std::string fatal;
     try {
+        bool hasRebuild = false;
+        for (const HistOp& op : sc.history) if (op.op == "rebuild") hasRebuild = true;
         if (sc.prop == "C12") recipeStaged(rs);
-        else if (sc.prop == "C13") recipeRebuild(rs);
+        else if (sc.prop == "C13" || hasRebuild) recipeRebuild(rs);
         else recipeExec(rs);
     } catch (const std::exception& e) {
         fatal = e.what();
